@@ -18,7 +18,7 @@ Walk(r, k, s, rt, pend) ==
   LET n == N(r.doc) IN
   IF k > Len(r.pages) THEN (IF s > n THEN "ok" ELSE "content-lost-at-end")
   ELSE LET p == r.pages[k]
-           need == (pend = "left" /\ rt) \/ (pend = "right" /\ ~rt) IN
+           need == (SideOf(pend, r.rtl) = "left" /\ rt) \/ (SideOf(pend, r.rtl) = "right" /\ ~rt) IN
        IF p.right # rt THEN "side-does-not-alternate"
        ELSE IF need THEN (IF p.blank /\ p.lines = <<>> THEN Walk(r, k + 1, s, ~rt, "auto") ELSE "blank-page-missing")
        ELSE IF p.blank THEN "unexpected-blank-page"
@@ -29,10 +29,10 @@ Walk(r, k, s, rt, pend) ==
             IF e \notin AllowedEnds(r.doc, CapR(r, k), s) THEN WhyNot(r.doc, CapR(r, k), s, e)
             ELSE Walk(r, k + 1, e + 1, ~rt, IF e < n THEN Combined(r.doc, e) ELSE "auto")
 
-Verdict(r) == Walk(r, 1, 1, TRUE, "auto")
+Verdict(r) == Walk(r, 1, 1, ~r.rtl, "auto")
 
 TInit == /\ i \in 1..Len(Trace)
-         /\ doc = <<>> /\ H = 0 /\ Hfirst = 0 /\ nth = [a |-> 0, b |-> 0] /\ resume = 1 /\ right = TRUE /\ pages = <<>> /\ placed = <<>>
+         /\ doc = <<>> /\ rtl = FALSE /\ H = 0 /\ Hfirst = 0 /\ nth = [a |-> 0, b |-> 0] /\ resume = 1 /\ right = TRUE /\ pages = <<>> /\ placed = <<>>
          /\ pending = "auto" /\ phase = "trace"
 TNext == UNCHANGED <<vars, i>>
 \* always TRUE; prints the index and the reason of every rejected record
